@@ -49,8 +49,8 @@ structure DS where
   frozen : Bool := false
   w : World := fun _ => { lamports := 0, owner := systemId, data := [] }
   funder : Option Funder := none
-  cacheF : Bool := false
-  cacheR : Bool := false
+  /-- the context cache: every `cache` line is one `set_funder` / `set_recipient` call -/
+  cache : Cache := {}
   /-- the last successfully init'ed set: type, target, cached borsh value -/
   pending : Option (AcctType × Key × Option (List Nat)) := none
 
@@ -179,9 +179,12 @@ def step (s : DS) (toks : List String) : DS × String :=
     | _, _ => (s, "bad-op")
   | ["cache", which] =>
     if s.funder.isNone then (s, "bad-op")
-    else if which = "funder" then ({ s with cacheF := true }, "ok")
-    else if which = "recipient" then ({ s with cacheR := true }, "ok")
-    else (s, "bad-op")
+    else match s.funder with
+      | none => (s, "bad-op")
+      | some f =>
+        if which = "funder" then ({ s with cache := s.cache.setFunder f }, "ok")
+        else if which = "recipient" then ({ s with cache := s.cache.setRecipient f }, "ok")
+        else (s, "bad-op")
   | ["init", tyName, mode, tkey, tseeds, how, val] =>
     match tyOf tyName, parseKey tkey, parseSeeds tseeds with
     | some ty, some tkey, some tseeds =>
@@ -204,7 +207,7 @@ def step (s : DS) (toks : List String) : DS × String :=
               (match s.funder with
                | some f => .arg f
                | none => .cached none)
-            else .cached (if s.cacheF then s.funder else none)
+            else .cached s.cache.funder
           let dec : Except Err (Option (List Nat)) :=
             if ty.kind = .borsh then decodeBorsh ty (s.w tkey) else .ok none
           match dec with
@@ -247,14 +250,11 @@ def step (s : DS) (toks : List String) : DS × String :=
       | none => (s, "bad-op")
       | some nv =>
         let s := freeze s
-        let cache : Option Funder :=
-          if op = .normalize ∨ op = .receive then (if s.cacheF then s.funder else none)
-          else (if s.cacheR then s.funder else none)
         let who : Who := if how = "arg" then
             (match s.funder with
              | some f => .arg f
              | none => .cached none)
-          else .cached cache
+          else s.cache.who op
         let st0 : St := { w := s.w, log := [] }
         let out (r : Res Unit × St) : DS × String :=
           let s := { s with w := r.2.w }
